@@ -23,7 +23,8 @@ LEVEL_TEXT = ("Each JSON value of a bounded-exhaustive grammar (depth<=3 over 47
               "values is encoded under both backends in separate processes and every encoding is decoded under both; "
               "all four decode(encode(v)) must equal v type-strictly and no compact encoding may contain a raw line break."
               " Also values nested 200-1300 levels (beyond the fast backend's native 254/1024 limits), built and compared iteratively inside the workers."
-              " Also each backend's encodings fed through the library's real line reader (one line in, one message out).")
+              " Also each backend's encodings fed through the library's real line reader (one line in, one message out)."
+              ' Also decode-scribble-decode and encode-edit-encode call histories.')
 LEVEL_NOTE = ("Trusted: sys.modules['orjson']=None before import really disables orjson (the worker reports HAS_ORJSON and "
               "the run is inconclusive if both workers report the same); Python's pickle to ship values to the workers.")
 RULE = ("values from grammar V3 (exhaustive) + all single C0/boundary code points + seeded random values (depth<=6, nesting "
